@@ -20,8 +20,10 @@ MutatorOps == {"Mkdir", "MkdirAll", "Create", "WriteFile", "Append", "Remove", "
                "Chmod", "Chown", "Chtimes"}
 \* (batched Operations.Archive is an archive-interface call, not a filesystem method: not issued read-only)
 HandleActs == {"write", "writeat", "writestring", "truncate", "sync", "read", "close"}
-\* k encodes the open flags: 0 RDONLY, 1 WRONLY, 2 RDWR, +4 APPEND, +8 CREATE, +16 TRUNC, +32 EXCL
-Flags == {0, 1, 2, 5, 6, 9, 10, 17, 18, 26, 42, 8, 16}
+\* k encodes the open flags: 0 RDONLY, 1 WRONLY, 2 RDWR, +4 APPEND, +8 CREATE, +16 TRUNC, +32 EXCL, +64 SYNC
+\* (EXCL without CREATE and SYNC carry no write intent: 32, 64 and 96 are read-only opens)
+Flags == {0, 1, 2, 5, 6, 9, 10, 17, 18, 26, 42, 8, 16, 32, 64, 96, 66}
+WriteIntent(k) == (k % 4) # 0 \/ ((k \div 4) % 8) # 0
 MCFlags == {0, 2, 10, 16}
 MCHandleActs == {"write", "truncate", "read"}
 
@@ -31,7 +33,7 @@ ROCalls == {c \in Calls : c.op \notin {"Archive", "UpdateBatch", "Open"}} \cup {
 RORes(c) ==
   IF c.op \in MutatorOps THEN "EPERM"
   ELSE IF c.op = "OpenHandle"
-       THEN IF c.k # 0 THEN "EPERM"                              \* any write/create/truncate intent
+       THEN IF WriteIntent(c.k) THEN "EPERM"                     \* any write/append/create/truncate intent
             ELSE IF c.p \notin DOMAIN ref THEN "ENOENT"
             ELSE IF c.c \in {"write", "writeat", "writestring", "truncate"}
                  THEN (IF ref[c.p].kind = "dir" THEN "EISDIR" ELSE "EPERM")   \* any refusal will do on a directory handle
@@ -50,7 +52,7 @@ PickRW == LET ok  == {c \in Calls : Useful(c) /\ Fits(c) /\ ArchiveOK(c)}
           IN {RandomElement(IF RandomElement(1..100) <= OkBias /\ ok # {} THEN ok ELSE all)}
 \* read-only phase: half of the calls aim at existing entries
 PickRO == LET hit  == {c \in ROCalls : c.p \in DOMAIN ref}
-              ro   == {c \in hit : c.op = "OpenHandle" /\ c.k = 0 /\ ref[c.p].kind = "file"}   \* handles obtained read-only
+              ro   == {c \in hit : c.op = "OpenHandle" /\ ~WriteIntent(c.k) /\ ref[c.p].kind = "file"}   \* handles obtained read-only
               k    == RandomElement(1..100)
           IN {RandomElement(IF k <= 30 /\ ro # {} THEN ro ELSE IF k <= 70 /\ hit # {} THEN hit ELSE ROCalls)}
 
